@@ -318,7 +318,11 @@ class Ctx:
             "violations": len(self.violations),
         }
         if not self.replay_path and not self.selftest:
-            with open(os.path.join(VERIF, "evidence", self.pid + ".json"), "w") as f:
+            # extension checks (ids X..: specification growth beyond the listed properties) keep their
+            # evidence apart from the per-property evidence files
+            edir = "evidence_ext" if self.pid.startswith("X") else "evidence"
+            os.makedirs(os.path.join(VERIF, edir), exist_ok=True)
+            with open(os.path.join(VERIF, edir, self.pid + ".json"), "w") as f:
                 json.dump(ev, f, indent=1, default=str)
         for kid, what in self.known_hits:
             print("KNOWN-FINDING: property=%s %s [%s]" % (self.pid, what, kid))
